@@ -116,6 +116,7 @@ BifApply(name, args) ==
   ELSE CASE
      name = "substring" ->
         IF n \notin {2, 3} THEN Null
+        ELSE IF n = 3 /\ IsStr(a1) /\ IsNumV(a2) /\ a3.k = "null" THEN Unspec       \* the optional length given as null
         ELSE IF ~IsStr(a1) \/ ~IsNumV(a2) \/ (n = 3 /\ ~IsNumV(a3)) THEN Null
         ELSE IF ~IsInt(a2) \/ (n = 3 /\ ~IsInt(a3)) THEN Unspec
         ELSE Substring(a1.cp, IntOf(a2), IF n = 3 THEN IntOf(a3) ELSE ToEnd)
@@ -178,7 +179,8 @@ BifApply(name, args) ==
              ELSE IF \A i \in 1..Len(vs) : vs[i] = Bool(TRUE) THEN Bool(TRUE) ELSE Null
   [] name = "not" -> IF n # 1 THEN Null ELSE IF a1.k = "bool" THEN Bool(~a1.b) ELSE Null
   [] name = "sublist" ->
-        IF n \notin {2, 3} \/ ~IsList(a1) \/ ~IsNumV(a2) \/ (n = 3 /\ ~IsNumV(a3)) THEN Null
+        IF n = 3 /\ IsList(a1) /\ IsNumV(a2) /\ a3.k = "null" THEN Unspec       \* the optional length given as null: absent, or outside the domain? (both call forms must agree)
+        ELSE IF n \notin {2, 3} \/ ~IsList(a1) \/ ~IsNumV(a2) \/ (n = 3 /\ ~IsNumV(a3)) THEN Null
         ELSE IF ~IsInt(a2) \/ (n = 3 /\ ~IsInt(a3)) THEN Unspec
         ELSE LET len == Len(a1.items)  st == IntOf(a2)
                  from == IF st >= 1 THEN st ELSE len + st + 1 IN
@@ -248,6 +250,7 @@ BifApplyRe(name, args, re) ==
       strs(k) == \A j \in 1..k : args[j].k = "str"
   IN
   IF n >= 2 /\ a2.k = "str" /\ a2.cp # Re!Render(re) THEN Unspec            \* (the tree does not belong to the pattern: not a case)
+  ELSE IF (name = "matches" /\ n = 3 /\ a3.k = "null") \/ (name = "replace" /\ n = 4 /\ a4.k = "null") THEN Unspec   \* flags given as null: absent, or an error? (both forms must agree)
   ELSE CASE name = "matches" ->
               IF n < 2 \/ n > 3 THEN Null ELSE IF ~strs(n) THEN Null
               ELSE IF n = 3 /\ a3.cp = <<105>> THEN Bool(Re!MatchesI(re, a1.cp))         \* flag "i"
